@@ -373,9 +373,27 @@ func (ctx Ctx) prophIdMethod(f *ast.SelectorExpr, args []ast.Expr) coq.CallExpr 
 	}
 }
 
+// isBuiltinPkg reports whether e is a qualifier that names one of the imported
+// packages goose gives a built-in meaning (see builtinImports). A user package
+// that is merely called log, fmt, machine, ... is an ordinary package.
+func (ctx Ctx) isBuiltinPkg(e ast.Expr) bool {
+	ident, ok := e.(*ast.Ident)
+	if !ok {
+		return false
+	}
+	pkgName, ok := ctx.info.Uses[ident].(*types.PkgName)
+	if !ok {
+		return false
+	}
+	return builtinImports[pkgName.Imported().Path()]
+}
+
 func (ctx Ctx) packageMethod(f *ast.SelectorExpr,
 	call *ast.CallExpr) coq.Expr {
 	args := call.Args
+	if !ctx.isBuiltinPkg(f.X) && !isIdent(f.X, "util") {
+		return ctx.userPackageMethod(f, call)
+	}
 	// TODO: replace this with an import that has all the right definitions with
 	// names that match Go
 	if isIdent(f.X, "filesys") {
@@ -446,11 +464,16 @@ func (ctx Ctx) packageMethod(f *ast.SelectorExpr,
 			return ctx.newCoqCall("lock.newCond", args)
 		}
 	}
+	return ctx.userPackageMethod(f, call)
+}
+
+func (ctx Ctx) userPackageMethod(f *ast.SelectorExpr,
+	call *ast.CallExpr) coq.Expr {
 	pkg := f.X.(*ast.Ident)
 	return ctx.newCoqCallTypeArgs(
 		coq.GallinaIdent(coq.PackageIdent{Package: pkg.Name, Ident: f.Sel.Name}.Coq(true)),
 		ctx.typeList(call, ctx.info.Instances[f.Sel].TypeArgs),
-		args)
+		call.Args)
 }
 
 func (ctx Ctx) selectorMethod(f *ast.SelectorExpr, call *ast.CallExpr) coq.Expr {
@@ -843,10 +866,10 @@ func (ctx Ctx) qualifiedName(obj types.Object) string {
 func (ctx Ctx) selectExpr(e *ast.SelectorExpr) coq.Expr {
 	selectorType, ok := ctx.getType(e.X)
 	if !ok {
-		if isIdent(e.X, "filesys") {
+		if isIdent(e.X, "filesys") && ctx.isBuiltinPkg(e.X) {
 			return coq.GallinaIdent("FS." + e.Sel.Name)
 		}
-		if isIdent(e.X, "disk") {
+		if isIdent(e.X, "disk") && ctx.isBuiltinPkg(e.X) {
 			return coq.GallinaIdent("disk." + e.Sel.Name)
 		}
 		if pkg, ok := getIdent(e.X); ok {
@@ -1826,13 +1849,13 @@ func (ctx Ctx) multipleAssignStmt(s *ast.AssignStmt) coq.Binding {
 
 // isLoggingCall reports whether e is a call that is translated to a comment
 // (see packageMethod).
-func isLoggingCall(e ast.Expr) bool {
+func (ctx Ctx) isLoggingCall(e ast.Expr) bool {
 	call, ok := e.(*ast.CallExpr)
 	if !ok {
 		return false
 	}
 	f, ok := call.Fun.(*ast.SelectorExpr)
-	if !ok {
+	if !ok || !ctx.isBuiltinPkg(f.X) {
 		return false
 	}
 	switch f.Sel.Name {
@@ -1850,7 +1873,7 @@ func (ctx Ctx) assignStmt(s *ast.AssignStmt) coq.Binding {
 		ctx.unsupported(s, "binding more than 4 results")
 		return coq.Binding{}
 	}
-	if len(s.Rhs) == 1 && isLoggingCall(s.Rhs[0]) {
+	if len(s.Rhs) == 1 && ctx.isLoggingCall(s.Rhs[0]) {
 		// the call becomes a comment, which leaves the names unbound
 		ctx.unsupported(s, "results of a logging call")
 		return coq.Binding{}
